@@ -9,7 +9,7 @@
    The two settings schemas are arguments ([cur] = DailySettings, [leg] = DailyLegacySettings); the theorems
    instantiate them with the schemas regenerated from the package (Generated/C01Gen.v).
    Executable definitions only. *)
-From Coq Require Import ZArith List Bool String PrimFloat.
+From Coq Require Import ZArith List Bool String Ascii PrimFloat.
 From V Require Import Model.Num Model.NumF Model.DailyCurve Model.Json Model.DocSchema.
 Import ListNotations.
 Open Scope string_scope.
@@ -153,8 +153,9 @@ Variable cur leg : schema.
 (* the settings class the constructor of each model class validates with *)
 Definition schema_of (c : mclass) : schema := match c with Daily => cur | Billing => leg end.
 
-(* `cls(settings=settings)` then the parameters; None = an exception (pydantic ValidationError, ...) *)
-Definition from_doc (c : mclass) (d : json) : option daily_state :=
+(* one settings class: `cls(settings=settings)` with the class's own schema, then the parameters;
+   None = an exception (pydantic ValidationError, ...) *)
+Definition from_doc_one_class (c : mclass) (d : json) : option daily_state :=
   do st <- field "settings" d;
   if negb (accepts (schema_of c) st) then None else
   do subs <- bind (bind (field "submodels" d) as_obj) (fun l => opt_all (map parse_submodel l));
@@ -165,12 +166,12 @@ Definition from_doc (c : mclass) (d : json) : option daily_state :=
   do ws <- parse_warnings (field "warnings" info);
   Some {| ds_subs := subs; ds_error := err; ds_tz := tz; ds_dq := dq; ds_warnings := ws; ds_settings := st |}.
 
-(* the proposed repair of finding C01-K1 (/var/tmp/proposed-fixes/C01-1.diff): a DailyModel document whose
-   settings the current class rejects is read with the legacy class *)
-Definition from_doc_repaired (c : mclass) (d : json) : option daily_state :=
-  match from_doc c d with
+(* DailyModel.from_dict / BillingModel.from_dict as coded (since /repo 394645be): a DailyModel document whose
+   settings the current class rejects is read with the legacy class (`cls(model="legacy", settings=...)`) *)
+Definition from_doc (c : mclass) (d : json) : option daily_state :=
+  match from_doc_one_class c d with
   | Some s => Some s
-  | None => match c with Daily => from_doc Billing d | Billing => None end
+  | None => match c with Daily => from_doc_one_class Billing d | Billing => None end
   end.
 
 (* the settings schema that produced the state's effective season / weekday maps *)
@@ -179,7 +180,7 @@ Definition maps_of (sch : schema) (s : daily_state) : list (option json) * list 
 
 End Reload.
 
-(* ---------------------------------------------------------------- prediction of one sub-model *)
+(* ---------------------------------------------------------------- prediction *)
 
 Fixpoint find_sub (k : string) (l : list submodel) : option submodel :=
   match l with
@@ -197,3 +198,37 @@ Definition predict_sub (s : daily_state) (k : string) (T : float) : option (floa
       | None => None
       end
   end.
+
+(* ---- which sub-model predicts a day: DailyModel._meter_segment through combo_dictionary and the season column.
+   A split key is "<days>-<seasons>": days = fw | wd | we, seasons = su / sh / wi joined by "_".
+   The month -> season and day -> weekday/weekend maps are those of the model's settings: __init__ derives
+   combo_dictionary["wd"/"we"] from settings.weekday_weekend, _initialize_data reads settings.season. *)
+Fixpoint split_us (s acc : string) : list string :=
+  match s with
+  | EmptyString => [acc]
+  | String c r => if Ascii.eqb c "_"%char then acc :: split_us r "" else split_us r (acc ++ String c "")
+  end.
+
+Definition season_of_code (code : string) : option string :=
+  if String.eqb code "su" then Some "summer" else if String.eqb code "sh" then Some "shoulder"
+  else if String.eqb code "wi" then Some "winter" else None.
+
+Definition jstr_is (j : option json) (s : string) : bool :=
+  match j with Some (JStr x) => String.eqb x s | _ => false end.
+
+(* month 1..12, dow 1..7 (Monday = 1); maps = (season of each month, day class of each day) *)
+Definition covers (maps : list (option json) * list (option json)) (key : string) (month dow : nat) : bool :=
+  let days := String.substring 0 2 key in
+  let seasons := split_us (String.substring 3 (String.length key - 3) key) "" in
+  let season_here := nth (month - 1) (fst maps) None in
+  let day_here := nth (dow - 1) (snd maps) None in
+  existsb (fun code => match season_of_code code with Some name => jstr_is season_here name | None => false end) seasons &&
+  (String.eqb days "fw" || (String.eqb days "wd" && jstr_is day_here "weekday") || (String.eqb days "we" && jstr_is day_here "weekend")).
+
+Definition route (maps : list (option json) * list (option json)) (subs : list submodel) (month dow : nat) : list string :=
+  map sm_key (filter (fun sm => covers maps (sm_key sm) month dow) subs).
+
+(* the prediction of a day: every sub-model that covers it, at the day's temperature *)
+Definition predict_day (maps : list (option json) * list (option json)) (s : daily_state) (month dow : nat) (T : float)
+  : list (string * option (float * float * float * float)) :=
+  map (fun k => (k, predict_sub s k T)) (route maps (ds_subs s) month dow).
